@@ -20,8 +20,15 @@ func init() {
 	})
 }
 
+var c04Extra func(c *kit.Ctx, k *keyer)
+
 func runC04(c *kit.Ctx) {
 	k := newKeyer()
+	defer func() {
+		if c04Extra != nil {
+			c04Extra(c, k)
+		}
+	}()
 	T := func(name string) *ssa.Function { return c.Func("torrent", "(*torrent)."+name) }
 	TO := func(name string) *types.Func { return c.FuncObj("torrent", "(*torrent)."+name) }
 	F := func(name string) *types.Var { return c.Field("torrent", "torrent", name) }
@@ -463,6 +470,8 @@ func runC04(c *kit.Ctx) {
 		}
 	}
 }
+
+func init() { c04Extra = runC04Extra }
 
 // structOwner returns the named struct type that owns the field at the end
 // of an access path.
